@@ -921,6 +921,11 @@ func (c *Client) processPubrel(id packet.ID) error {
 		once.Do(func() {
 			c.backend.Log(MessageAcknowledged, c, nil, &publish.Message, nil)
 
+			// remove publish from session as the backend has accepted the
+			// message, otherwise a retransmitted pubrel forwards it again
+			// if the pubcomp cannot be sent
+			_ = c.session.DeletePacket(session.Incoming, id)
+
 			// queue pubcomp
 			select {
 			case c.ackQueue <- pubcomp:
